@@ -781,12 +781,13 @@ class SigmaCorrelationRule(SigmaRuleBase, ProcessingItemTrackingMixin):
 
         # Alias definitions may name a rule differently than the rule list does (name vs. id): resolve
         # them as well, so that they can be matched by the rule they refer to.
-        for alias in self.aliases:
-            for alias_rule_ref in alias.mapping.keys():
-                try:
-                    alias_rule_ref.resolve(rule_collection)
-                except sigma_exceptions.SigmaRuleNotFoundError:
-                    pass
+        if isinstance(self.aliases, SigmaCorrelationFieldAliases):  # not for a rule loaded with errors
+            for alias in self.aliases:
+                for alias_rule_ref in alias.mapping.keys():
+                    try:
+                        alias_rule_ref.resolve(rule_collection)
+                    except sigma_exceptions.SigmaRuleNotFoundError:
+                        pass
 
     def flatten_rules(
         self: Self, include_correlations: bool = True
